@@ -80,6 +80,32 @@ def bound_fields(F, wv):
     return out
 
 
+def drain_status(F):
+    """(status enums, bundle structs): the crate-local enum a drain routine (a body of the background module that pops from the ring)
+    reports its outcome with - returned as such, inside a tuple, or as a field of a small private struct - and those structs"""
+    c_ = getattr(F, "_drain_status", None)
+    if c_ is None:
+        enums, bundles = set(), set()
+        cand = {d for d, a in F.adts.items() if a["crate"] == BG and len(a["variants"]) >= 2 and all(not v["fields"] for v in a["variants"])}
+        for b in F.all_bodies(BG):
+            if not in_bg(F, b) or not any(is_pop(c) for c in b.calls()):
+                continue
+            out = b.d.get("output") or ""
+            for d in cand:
+                if d in out:
+                    enums.add(d)
+            for d, a in F.adts.items():
+                if a["crate"] == BG and len(a["variants"]) == 1 and (out == d or out.startswith(d + "<")):
+                    ftys = [f["ty"] for f in a["variants"][0]["fields"]]
+                    for e in cand:
+                        if e in ftys:
+                            enums.add(e)
+                            bundles.add(d)
+        c_ = (enums, bundles)
+        F._drain_status = c_
+    return c_
+
+
 def run(ctx):
     F = ctx.facts("dbg")
     sig, wv = waker_vec_fields(F)
@@ -179,7 +205,8 @@ def run(ctx):
                 if l is None:
                     continue
                 ty = cs.body.local_ty(l)
-                if "DrainResult" in ty or (ty == "usize" and ai == len(cs.args) - 1) or ty == "bool":
+                is_bundle = ty in drain_status(F)[1]
+                if any(e_ in ty for e_ in drain_status(F)[0]) or (ty == "usize" and ai == len(cs.args) - 1) or ty == "bool" or is_bundle:
                     o = pr.operand(a)
                     callbbs = {x[1] for x in o if x[0] == "call"}
                     # a boolean summary of the drain status: look through the comparison that produced it
@@ -188,7 +215,7 @@ def run(ctx):
                             for a2 in cs.body.term(x[1]).get("args", []):
                                 callbbs |= {y[1] for y in pr.operand(a2) if y[0] in ("call", "callf")}
                     okd = bool(callbbs & drains) and all(dominates(cs.body, d, cs.bb, dom) for d in callbbs & drains)
-                    fed += 1
+                    fed += 2 if is_bundle else 1         # a (status, count) struct handed over whole carries both
                     ctx.check(okd, "R04.3", fnkey(cs.body) + "#tracker-arg%d-from-drain" % ai, loc(cs.body, cs.bb),
                               "argument %d of the waker-tracker call does not come from the preceding drain (origins %s)" % (ai, sorted(o)[:4]),
                               "derives from drain call bb%s" % sorted(callbbs & drains))
@@ -260,14 +287,14 @@ def run(ctx):
     ctx.floor("R04.1", "bindings of the flush action at tracker call sites", nbind, 1)
 
     # ------------------------------------------------------------------ R04.6 "drained" means: the drain left through the ring-empty exit
-    dr_adts = [a for a in F.adts.values() if a["crate"] == BG and a["def"].endswith("DrainResult")]
+    dr_adts = [a for a in F.adts.values() if a["def"] in drain_status(F)[0]]
     n46 = 0
     for da in dr_adts:
         allv = {v["name"] for v in da["variants"]}
         # which variants can a drain return while entries may remain? every variant built on a path that is not the pop()==None arm
         empty_v, other_v = set(), set()
         for d in F.all_bodies(BG):
-            if not in_bg(F, d) or da["def"] not in (d.d.get("output") or ""):
+            if not in_bg(F, d) or not (da["def"] in (d.d.get("output") or "") or (d.d.get("output") or "") in drain_status(F)[1]):
                 continue
             pops = [c for c in d.calls() if is_pop(c)]
             if not pops:
@@ -307,7 +334,7 @@ def run(ctx):
             return None
         for bdef, (tb, params) in tracker_bodies.items():
             # (a) the tracker receives the status itself and tests it inside
-            st_params = [i for i in range(1, tb.arg_count + 1) if tb.locals[i]["ty"] == da["def"]]
+            st_params = [i for i in range(1, tb.arg_count + 1) if tb.locals[i]["ty"] == da["def"] or tb.locals[i]["ty"] in drain_status(F)[1]]
             for sp in st_params:
                 for c in tb.calls():
                     if c.name in ("eq", "ne") and any(any(y[0] == "arg" and y[1] == sp for y in Prov(tb).operand(a2)) for a2 in c.args):
@@ -430,7 +457,8 @@ def run(ctx):
                     c = _cs_at(tb, x[1])
                     a0, a1 = pr.operand(c.args[0]), pr.operand(c.args[1])
                     okd = (any(y[0] == "arg" and y[1] == 1 and y[2] and y[2][-1] == cf for y in a0) and
-                           all(y[0] == "arg" and y[1] > 1 and not y[2] and tb.local_ty(y[1]) == "usize" for y in a1) and c.name == "saturating_sub")
+                           all(y[0] == "arg" and y[1] > 1 and ((not y[2] and tb.local_ty(y[1]) == "usize") or (len(y[2]) == 1 and tb.local_ty(y[1]) in drain_status(F)[1]))
+                               for y in a1) and c.name == "saturating_sub")
                 ctx.check(okd, "R04.4", key + "#counter-decrement-by-processed-entries", loc(tb, bb_),
                           "the counter update is not `counter.saturating_sub(<entry-count parameter>)`: origins %s" % sorted(map(str, o))[:5],
                           "counter decremented by the entry-count parameter, saturating")
@@ -483,9 +511,21 @@ def run(ctx):
                                   "drain+flush: pending flush futures complete too early")
     # R04.5 dead queue never panics
     n5 = 0
-    for b in F.all_bodies(BG):
-        if not in_bg(F, b) or b.name != "flush_async" and not (b.kind == "Closure" and (b.parent or "").endswith("flush_async")):
+    # the flush-request path: the public `flush_async` of the queue and every private function / closure of the module it runs
+    # (whatever those are called and wherever in the module they live)
+    fa_units, fa_work = {}, [b for b in F.all_bodies(BG) if in_bg(F, b) and b.name == "flush_async"]
+    while fa_work:
+        b = fa_work.pop()
+        if b.def_ in fa_units:
             continue
+        fa_units[b.def_] = b
+        for cb in F.closures_of(b):
+            fa_work.append(cb)
+        for c in b.calls():
+            for sb in local_callee_bodies(F, c):
+                if sb.crate == BG and in_bg(F, sb) and len(fa_units) < 12:
+                    fa_work.append(sb)
+    for b in fa_units.values():
         n5 += 1
         bad = [c for c in b.calls() if c.is_("core::result::Result::<T, E>::unwrap", "core::result::Result::<T, E>::expect",
                                              "core::option::Option::<T>::unwrap", "core::option::Option::<T>::expect") or c.is_trait_method("Try", "branch")]
